@@ -63,6 +63,13 @@ def opsGenGeomBatch : List (String × Handler) := [
     withBatch n n (outF ((List.finRange n).flatMap fun i =>
       rayF (if x.getD 0 0 = 0 then reflectBatchN (raysAt x 2 n) (raysAt x (2 + 6 * n) n) i
             else reflectBatchT (raysAt x 2 n) (raysAt x (2 + 6 * n) n) i)))),
+  -- gb_reflect1 api which(0: n rays, one normal; 1: one ray, n normals) n many(6n) one(6) -> per i: ray(6)
+  ("gb_reflect1", fun a => let x := a.toArray; let w := natAt x 1; let n := natAt x 2
+    withBatch n n (outF ((List.finRange n).flatMap fun i =>
+      rayF (if x.getD 0 0 = 0 then
+              (if w = 0 then reflectRaysN (raysAt x 3 n) (rayAt x (3 + 6 * n)) i else reflectNormalsN (rayAt x (3 + 6 * n)) (raysAt x 3 n) i)
+            else
+              (if w = 0 then reflectRaysT (raysAt x 3 n) (rayAt x (3 + 6 * n)) i else reflectNormalsT (rayAt x (3 + 6 * n)) (raysAt x 3 n) i))))),
   -- gb_mirror m k rays tris -> reflected rays (one group), normals (one group)
   ("gb_mirror", fun a => let x := a.toArray; let m := natAt x 0; let k := natAt x 1
     withBatch m k (let r := mirrorT (raysAt x 2 m) (trisAt x (2 + 6 * m) k)
